@@ -199,7 +199,7 @@ class JsonStream(Stream):
             'non-trivial = value contains a container or an escaped string; distinct by value')
 
     def gen(self, rng, tier):
-        n = 300 if tier == 'quick' else 6000
+        n = 250 if tier == 'quick' else 6000
         out = []
         for i in range(n):
             v = gen_value(rng, 3, True, surrogates=(i % 5 == 0))
@@ -369,7 +369,7 @@ class FieldStream(Stream):
         return self._fresh[i]
 
     def gen(self, rng, tier):
-        n = 700 if tier == 'quick' else 14000
+        n = 600 if tier == 'quick' else 14000
         cl = classes()
         out = []
         for _ in range(n):
@@ -601,7 +601,7 @@ class MiscStream(Stream):
 
     # ---------------- generation
     def gen(self, rng, tier):
-        n = 600 if tier == 'quick' else 12000
+        n = 500 if tier == 'quick' else 12000
         out = []
         for _ in range(n):
             k = rng.randrange(5)
@@ -1136,7 +1136,7 @@ class MaintStream(Stream):
             'ill-typed entry fields; non-trivial = at least one entry present at the end; distinct by case')
 
     def gen(self, rng, tier):
-        n = 400 if tier == 'quick' else 8000
+        n = 300 if tier == 'quick' else 8000
         out = []
         for _ in range(n):
             ops = []
@@ -1355,13 +1355,91 @@ class MaintStream(Stream):
         return case
 
 
+# ----------------------------------------------------------------------------------------------
+# replays of the ..._refuted witnesses of Properties/C03.v on the implementation
+# ----------------------------------------------------------------------------------------------
+def w_forward_compat():
+    from fim.slivers.capacities_labels import Capacities
+    base = Capacities.from_json('{"core": 2}')
+    try:
+        x = Capacities.from_json('{"core": 2, "gpu_model": "A100"}')
+        return (x.__dict__ != base.__dict__, 'decoded %r' % (x.__dict__,))
+    except Exception as e:
+        return (True, 'Capacities.from_json(\'{"core": 2, "gpu_model": "A100"}\') raises %s' % type(e).__name__)
+
+
+def w_pathinfo_unset():
+    from fim.slivers.path_info import PathInfo, ERO
+    out = []
+    for cls in (PathInfo, ERO):
+        try:
+            t = cls().to_json()
+            back = cls.from_json(t)
+            if not (t == '' and back is None):
+                out.append('%s().to_json() = %r' % (cls.__name__, t))
+        except Exception as e:
+            out.append('%s().to_json() raises %s' % (cls.__name__, type(e).__name__))
+    return (bool(out), '; '.join(out))
+
+
+def w_tuple_value():
+    from fim.graph.typed_tuples import Capacity, Label
+    a = Capacity(fromstring=Capacity(atype='ram', aval=1000).get_as_string()).get_val()
+    b = Label(fromstring=Label(atype='mac', aval='x ').get_as_string()).get_val()
+    return (not (same(a, 1000) and same(b, 'x ')), 'Capacity ram:1000 reads back %r, Label mac:"x " reads back %r' % (a, b))
+
+
+def w_capacities_none():
+    from fim.slivers.capacities_labels import Capacities
+    x = Capacities(core=None, ram=1)
+    y = Capacities.from_json(x.to_json())
+    return (not same(canon(dict(x.__dict__)), canon(dict(y.__dict__))), 'core=None reads back as %r' % (y.core,))
+
+
+def w_maint_unknown_field():
+    from fim.slivers.maintenance_mode import MaintenanceInfo
+    try:
+        m = MaintenanceInfo.from_json('{"n1": {"state": "Maint", "deadline": null, "expected_end": null, "reason": "x"}}')
+        return (m.get('n1') is None or m.get('n1').state.name != 'Maint', 'decoded')
+    except Exception as e:
+        return (True, 'MaintenanceInfo.from_json with an unknown entry field raises %s' % type(e).__name__)
+
+
 class C03(Check):
     pid = 'C03'
     translators = ['gen_codec']
     model_targets = ['Model/CodecChk.vo']
     streams = [JsonStream(), FieldStream(), MiscStream(), MaintStream()]
-    trusted_base = []
-    assumptions = []
+    design_ref = 'DESIGN.md section 7, C03; notes/C03.md'
+    trusted_base = [
+        'Coq 8.16.1 kernel (coqc), vm_compute for the correspondence evaluation; no native_compute',
+        'Print Assumptions of every C03 theorem: Closed under the global context (no axioms)',
+        'translator/gen_codec.py + translator/pyast.py (Python ast -> Gen/CodecGen.v), fail-closed',
+        'harness/c03.py + harness/common.py (case generation, recording of implementation results, cases.v writer)',
+        'modelled not verified: CPython json.dumps/json.loads (Base/Json.v jprint/jsort/jparse, validated by the json stream '
+        'on every run), str.strip / str.split, dict insertion order, dataclasses.asdict, enum str()',
+        'floats are represented by their json.dumps text and datetimes by isoformat(): float(repr(f)) == f and '
+        'fromisoformat(d.isoformat()) == d are CPython guarantees, exercised (not proved) by the oracle on every run',
+        'the validators (Labels.VALIDATORS/LAMBDA_VALIDATORS, Tags.TAG_PATTERN, datetime.fromisoformat) are universally '
+        'quantified parameters of the theorems; the correspondence instantiates them with the implementation\'s own verdicts',
+        'non-mutation of arguments (update, constructors, to_json) is an aliasing fact outside a pure model: checked by '
+        'deep before/after snapshots in every stream, not proved',
+    ]
+    assumptions = [
+        'wf_obj: every field holds its default or a value the class\'s own assertions/validators accept and its encoder keeps '
+        '(C03_drop_rule_lossless shows nothing else is excluded, except None/False for Capacities = recorded finding)',
+        'jwfb: strings contain no lone surrogate code points, dict keys are distinct strings, floats are finite-or-NaN/Infinity tokens '
+        'in repr form; field values of the JSONField classes contain no dict (documented types: int, bool, float, str, list of str)',
+        'unknown keys are not attribute names of the class (to_json, update, VALIDATORS ...): __getattribute__ finds those and '
+        '_set_fields stores the value instead of ignoring it (noted under the forward-compatibility finding)',
+        'pinfo_wf: set() was called on a PathInfo/ERO (the unset case is the recorded finding); tval_plain: typed-tuple values are '
+        'strings without trailing whitespace (ints / trailing whitespace = recorded finding)',
+    ]
+
+    def refuted_witnesses(self):
+        return [('C03_field_forward_compat_refuted', w_forward_compat), ('C03_pathinfo_unset_refuted', w_pathinfo_unset),
+                ('C03_tuple_value_refuted', w_tuple_value), ('C03_capacities_none_refuted', w_capacities_none),
+                ('C03_maint_unknown_entry_field_refuted', w_maint_unknown_field)]
 
 
 if __name__ == '__main__':
